@@ -123,3 +123,195 @@ func TestVerifC18Binding(t *testing.T) {
 		}
 	})
 }
+
+// Histories: the set of deployments a revision owns changes over time and the
+// REAL binding reconciler (default APIUpdatingApplicator + AllowUpdateIf
+// predicate) runs after every step against the binding it stored earlier.
+// After every successful reconcile the subjects of the binding to the
+// revision's system role are exactly the service accounts of the deployments
+// the revision owns at that moment.
+func TestVerifC18BindingHistories(t *testing.T) {
+	rec := verifkit.New(t, "C18", "histories of 2-8 steps (create/delete a deployment owned by the revision, by another revision, by both or by nobody; change a deployment's service account; deactivate = delete all owned deployments) with a binding Reconcile on verifsim after every step; oracle after each reconcile: binding subjects == service accounts of currently owned deployments; non-trivial = the owned service-account set shrank while a binding existed; distinct=history")
+	rapid.Check(t, func(t *rapid.T) {
+		ctx := context.Background()
+		s := verifsim.New(c18bScheme)
+		setup := s.Client("package-manager")
+		revs := []string{"provider-a-rev1", "provider-b-rev1"}
+		uids := map[string]types.UID{}
+		for _, n := range revs {
+			pr := &pkgv1.ProviderRevision{ObjectMeta: metav1.ObjectMeta{Name: n}}
+			pr.Spec.Package = "acme/" + n + ":v1.0.0"
+			pr.Spec.DesiredState = pkgv1.PackageRevisionActive
+			if err := setup.Create(ctx, pr); err != nil {
+				t.Fatalf("setup: %v", err)
+			}
+			uids[n] = pr.GetUID()
+		}
+		target := revs[0]
+		bindingKey := verifsim.Key{Group: rbacv1.GroupName, Kind: "ClusterRoleBinding", Name: roles.SystemClusterRoleName(target)}
+		r := binding.NewReconciler(c18bMgr{c: s.Client("rbac-manager")})
+
+		type sa struct{ ns, name string }
+		type dep struct {
+			ns, name, account string
+			owned             bool // by the target revision
+		}
+		live := map[string]*dep{}
+		next := 0
+		var history []string
+		rec.Eval()
+		prev := map[sa]bool{}
+		hadBinding := false
+		shrank, emptied := false, false
+
+		nsteps := rapid.IntRange(2, 8).Draw(t, "nsteps")
+		for step := 0; step < nsteps; step++ {
+			keys := make([]string, 0, len(live))
+			for k := range live {
+				keys = append(keys, k)
+			}
+			sortStrings(keys)
+			op := rapid.IntRange(0, 9).Draw(t, "op")
+			if step == 0 {
+				op = 0
+			}
+			switch {
+			case op <= 3 || len(keys) == 0: // create a deployment
+				d := &dep{
+					ns:      rapid.SampledFrom([]string{"crossplane-system", "other"}).Draw(t, "ns"),
+					name:    fmt.Sprintf("deployment-%d", next),
+					account: rapid.SampledFrom([]string{"sa-a", "sa-b", "sa-c", "crossplane"}).Draw(t, "sa"),
+				}
+				next++
+				o := &appsv1.Deployment{ObjectMeta: metav1.ObjectMeta{Namespace: d.ns, Name: d.name}}
+				o.Spec.Template.Spec.ServiceAccountName = d.account
+				ctrl := true
+				owner := rapid.SampledFrom([]string{"target", "target", "target", "other", "both", "none"}).Draw(t, "owner")
+				switch owner {
+				case "target":
+					d.owned = true
+					o.OwnerReferences = []metav1.OwnerReference{{APIVersion: "pkg.crossplane.io/v1", Kind: "ProviderRevision", Name: target, UID: uids[target], Controller: &ctrl}}
+				case "other":
+					o.OwnerReferences = []metav1.OwnerReference{{APIVersion: "pkg.crossplane.io/v1", Kind: "ProviderRevision", Name: revs[1], UID: uids[revs[1]], Controller: &ctrl}}
+				case "both":
+					d.owned = true
+					o.OwnerReferences = []metav1.OwnerReference{
+						{APIVersion: "pkg.crossplane.io/v1", Kind: "ProviderRevision", Name: target, UID: uids[target], Controller: &ctrl},
+						{APIVersion: "pkg.crossplane.io/v1", Kind: "ProviderRevision", Name: revs[1], UID: uids[revs[1]]},
+					}
+				}
+				if err := setup.Create(ctx, o); err != nil {
+					t.Fatalf("setup: %v", err)
+				}
+				live[d.ns+"/"+d.name] = d
+				history = append(history, fmt.Sprintf("create %s/%s sa=%s owner=%s", d.ns, d.name, d.account, owner))
+			case op <= 6: // delete one deployment
+				k := rapid.SampledFrom(keys).Draw(t, "del")
+				d := live[k]
+				if err := setup.Delete(ctx, &appsv1.Deployment{ObjectMeta: metav1.ObjectMeta{Namespace: d.ns, Name: d.name}}); err != nil {
+					t.Fatalf("setup delete: %v", err)
+				}
+				delete(live, k)
+				history = append(history, "delete "+k)
+			case op == 7: // the deployment switches to another service account
+				k := rapid.SampledFrom(keys).Draw(t, "upd")
+				d := live[k]
+				o := &appsv1.Deployment{}
+				if err := setup.Get(ctx, types.NamespacedName{Namespace: d.ns, Name: d.name}, o); err != nil {
+					t.Fatalf("setup get: %v", err)
+				}
+				d.account = rapid.SampledFrom([]string{"sa-a", "sa-b", "sa-c"}).Draw(t, "newsa")
+				o.Spec.Template.Spec.ServiceAccountName = d.account
+				if err := setup.Update(ctx, o); err != nil {
+					t.Fatalf("setup update: %v", err)
+				}
+				history = append(history, "set-sa "+k+" "+d.account)
+			default: // the revision is deactivated: its deployments are deleted
+				pr := &pkgv1.ProviderRevision{}
+				if err := setup.Get(ctx, types.NamespacedName{Name: target}, pr); err != nil {
+					t.Fatalf("setup get: %v", err)
+				}
+				pr.Spec.DesiredState = pkgv1.PackageRevisionInactive
+				if err := setup.Update(ctx, pr); err != nil {
+					t.Fatalf("setup update: %v", err)
+				}
+				for _, k := range keys {
+					if d := live[k]; d.owned {
+						if err := setup.Delete(ctx, &appsv1.Deployment{ObjectMeta: metav1.ObjectMeta{Namespace: d.ns, Name: d.name}}); err != nil {
+							t.Fatalf("setup delete: %v", err)
+						}
+						delete(live, k)
+					}
+				}
+				history = append(history, "deactivate")
+			}
+
+			if _, err := r.Reconcile(ctx, reconcile.Request{NamespacedName: types.NamespacedName{Name: target}}); err != nil {
+				t.Fatalf("Reconcile after %v: %v", history, err)
+			}
+			want := map[sa]bool{}
+			for _, d := range live {
+				if d.owned {
+					want[sa{d.ns, d.account}] = true
+				}
+			}
+			if hadBinding {
+				lost := false
+				for k := range prev {
+					if !want[k] {
+						lost = true
+					}
+				}
+				if lost {
+					shrank = true
+					rec.Label("history:owned-set-shrank-since-binding-written")
+					if len(want) == 0 {
+						emptied = true
+						rec.Label("history:owned-set-became-empty")
+					}
+				} else if len(want) > len(prev) {
+					rec.Label("history:owned-set-grew")
+				} else {
+					rec.Label("history:owned-set-unchanged")
+				}
+			}
+			obj := s.Get(bindingKey)
+			got := map[sa]bool{}
+			if obj != nil {
+				rb := &rbacv1.ClusterRoleBinding{}
+				if err := runtime.DefaultUnstructuredConverter.FromUnstructured(obj, rb); err != nil {
+					t.Fatalf("decode: %v", err)
+				}
+				if rb.RoleRef.Kind != "ClusterRole" || rb.RoleRef.Name != roles.SystemClusterRoleName(target) {
+					t.Fatalf("binding refers to %+v", rb.RoleRef)
+				}
+				for _, sub := range rb.Subjects {
+					k := sa{sub.Namespace, sub.Name}
+					if sub.Kind != rbacv1.ServiceAccountKind || !want[k] {
+						t.Fatalf("after %v and a successful reconcile, the system role of %s is still bound to %+v, which is not the service account of a deployment the revision owns now (owned now: %v)", history, target, sub, want)
+					}
+					got[k] = true
+				}
+				hadBinding = true
+			}
+			for k := range want {
+				if !got[k] {
+					t.Fatalf("after %v and a successful reconcile, the system role of %s is not bound to %v, the service account of a deployment the revision owns (binding present: %v)", history, target, k, obj != nil)
+				}
+			}
+			prev = want
+		}
+		_ = emptied
+		if shrank {
+			rec.NonTrivial(fmt.Sprint(history), func() any { return map[string]any{"history": history} })
+		}
+	})
+}
+
+func sortStrings(l []string) {
+	for i := 1; i < len(l); i++ {
+		for j := i; j > 0 && l[j] < l[j-1]; j-- {
+			l[j], l[j-1] = l[j-1], l[j]
+		}
+	}
+}
